@@ -63,7 +63,8 @@ ASSUMPTIONS = [
     "user edits never write through a hard/symlink into the cache (modify = unlink + create)",
     "a plain file sitting at the root of a tree target: any exception counts as the refusal (the "
     "unchanged code raises a bare FileExistsError from makedirs); the byte accounting applies unchanged",
-    "corrupt cache objects are unprotected (mode 0o644): a 0o444 object in a LocalHashFileDB is trusted by design",
+    "damaged cache objects carry any mode except exactly 0o444 (0o644, 0o600, 0o400, 0o440, 0o500, 0o555, "
+    "0o544): a 0o444 object in a LocalHashFileDB is trusted by design",
     "a modification that preserves inode, mtime and size (top level) or path and mtime (inside a "
     "recorded directory) is invisible to the documented token and is never generated: the harness "
     "owns mtimes and always moves them to a value not seen before for that path; when a file entry is "
@@ -81,6 +82,29 @@ ASSUMPTIONS = [
 DECLINE_ANSWERS = [False, None, 0, "", [], 0.0]
 ACCEPT_ANSWERS = [True, 1, "y", "yes", "anything-truthy"]
 PROMPT_RAISES = [EOFError, KeyboardInterrupt]
+
+# a damaged cache object may carry any mode except exactly 0o444 (a protected object is trusted by design)
+DAMAGED_MODES = [0o644, 0o600, 0o400, 0o440, 0o500, 0o555, 0o544]
+
+
+def damaged(data, how):
+    """truncated / other bytes of the same length / trailing garbage - never equal to data"""
+    if how % 3 == 0 and data:
+        return data[:-1]
+    if how % 3 == 1 and data:
+        return bytes([data[0] ^ 0xFF]) + data[1:]
+    return data + b"\x00corrupt"
+
+
+def plant_damaged(p, data, how, mode_idx):
+    if os.path.lexists(p):
+        os.chmod(p, 0o644)
+        os.unlink(p)
+    os.makedirs(os.path.dirname(p), exist_ok=True)
+    with open(p, "xb") as f:
+        f.write(damaged(data, how))
+    os.chmod(p, DAMAGED_MODES[mode_idx % len(DAMAGED_MODES)])
+
 
 LINK_TYPES = [["copy"], ["hardlink"], ["symlink"], ["reflink", "copy"], ["hardlink", "copy"],
               ["symlink", "copy"]]
@@ -155,6 +179,11 @@ def cases(draw):
         # what the prompt callable hands back / raises: index into DECLINE_ANSWERS / ACCEPT_ANSWERS /
         # PROMPT_RAISES (taken modulo the table size)
         "answer": draw(st.sampled_from([0, 0, 1, 2, 3, 4, 5])),
+        # damaged cache objects: mode index into DAMAGED_MODES, kind of damage, and whether the
+        # "partial cache of the old tree" step damages its drawn objects instead of removing them
+        "damage_mode": draw(st.integers(0, 6)),
+        "damage_how": draw(st.integers(0, 2)),
+        "cot_damage": draw(st.booleans()),
         "state": draw(st.sampled_from([False, False, False, True])),
     }
     # the workspace was hashed through the SAME State under the other md5 flavour (a legacy
@@ -214,7 +243,10 @@ def cases(draw):
         # some siblings deleted (they are linked as "added" whatever the processing order), uncached
         # edits on several of the others
         names = sorted(draw(st.sets(gen.names(), min_size=3, max_size=6)))
-        roles = [draw(st.sampled_from(["delete", "delete", "modify", "modify", "keep"])) for _ in names]
+        roles = [draw(st.sampled_from(["delete", "delete", "modify", "modify", "keep", "dir"])) for _ in names]
+        # at most one target file replaced by a directory holding an uncached user file
+        first_dir = roles.index("dir") if "dir" in roles else None
+        roles = ["modify" if r == "dir" and i != first_dir else r for i, r in enumerate(roles)]
         if "delete" not in roles:
             roles[draw(st.integers(0, len(names) - 1))] = "delete"
         if "modify" not in roles:
@@ -237,6 +269,9 @@ def cases(draw):
             base = allkeys.index(f"{sub}/{names[0]}")
         edits = [{"op": "modify", "i": base + i, "c": k + (i % 2)} for i, r in enumerate(roles) if r == "modify"]
         edits += [{"op": "delete", "i": base + i} for i, r in reversed(list(enumerate(roles))) if r == "delete"]
+        if first_dir is not None:   # applied last: index in the list that is left after the deletions
+            below = sum(1 for i, r in enumerate(roles) if r == "delete" and i < first_dir)
+            edits.append({"op": "f2d", "i": base + first_dir - below, "kids": {"kept": k}})
         case["edits"] = edits
         case["dangling"] = [{"d": 0, "name": draw(st.sampled_from(["broken", "~link", "zz"]))}]
         case["shape"] = "siblings-behind-dangling-symlink"
@@ -539,9 +574,16 @@ def run_checkout_case(case, ctx):  # noqa: C901, PLR0912, PLR0915
                         o = woids[i % len(woids)]
                         p = os.path.join(cpath, o[:2], o[2:])
                         if os.path.exists(p) and os.path.realpath(p) not in linked:
-                            os.chmod(p, 0o644)
-                            os.unlink(p)
-                            labels.add("old-tree-cached:file-object-removed")
+                            if case.get("cot_damage"):
+                                data = next(b for b in wsfiles.values() if md5(b) == o)
+                                plant_damaged(p, data, case["damage_how"], case["damage_mode"])
+                                labels.add("old-tree-cached:file-object-damaged")
+                                labels.add("damaged-object-mode=" + oct(
+                                    DAMAGED_MODES[case["damage_mode"] % len(DAMAGED_MODES)]))
+                            else:
+                                os.chmod(p, 0o644)
+                                os.unlink(p)
+                                labels.add("old-tree-cached:file-object-removed")
                             if o in {md5(b) for b in tflat.values()}:
                                 labels.add("target-object-dropped")
 
@@ -594,10 +636,12 @@ def run_checkout_case(case, ctx):  # noqa: C901, PLR0912, PLR0915
                         continue
                     p = os.path.join(cpath, h[:2], h[2:])
                     if not os.path.lexists(p):
-                        os.makedirs(os.path.dirname(p), exist_ok=True)
-                        with open(p, "xb") as f:
-                            f.write(data + b"\x00corrupt")
-                        os.chmod(p, 0o644)
+                        if "damage_mode" in case:
+                            plant_damaged(p, data, case["damage_how"], case["damage_mode"])
+                            labels.add("damaged-object-mode=" + oct(
+                                DAMAGED_MODES[case["damage_mode"] % len(DAMAGED_MODES)]))
+                        else:   # (replay files written before this dimension existed)
+                            plant_damaged(p, data, 2, 0)
 
             # pre-step: status-like staging of the workspace through the same State while the user
             # saves uncached content into an already-read file of the batch
